@@ -814,6 +814,97 @@ fn b_random_strategy(max_n: usize) -> impl Strategy<Value = BCase> {
         .prop_map(|(n, tag, subset, kind)| BCase { n, tag, subset, mask: None, kind })
 }
 
+// ====================================================================================== (E) deeply nested map proofs
+
+#[derive(Clone, Debug, Serialize, Deserialize)]
+struct ECase {
+    /// nesting levels of the map proof (1 = a bare tree proof seen as a map proof)
+    levels: u8,
+    /// leaves of the innermost tree
+    leaves: u8,
+    /// which of them is proven
+    pick: u8,
+}
+
+/// a map proof with `levels` nesting levels around the innermost tree proof (built level by level from real trees:
+/// each level is a master tree over three foreign entries and the entry key + root of the level below)
+fn nested_map_proof(levels: u8, innermost: MKProof) -> Option<MKMapProof<BlockRange>> {
+    let mut proof: MKMapProof<BlockRange> = innermost.into();
+    for level in 1..levels {
+        let key = range_of(level as u64);
+        let entry: MKTreeNode = MKTreeNode::from(key.clone()) + proof.compute_root();
+        let mut map_leaves: Vec<MKTreeNode> = (0..3).map(|i| MKTreeNode::from(format!("other-entry-{level}-{i}"))).collect();
+        map_leaves.insert(1, entry.clone());
+        let master = MKTree::<MKTreeStoreInMemory>::new(&map_leaves).ok()?.compute_proof(&[entry]).ok()?;
+        proof = MKMapProof::new(master, BTreeMap::from([(key, proof)]));
+    }
+    Some(proof)
+}
+
+fn e_case(c: &ECase) -> Report {
+    let mut rep = Report::new();
+    rep.label(format!("E:levels={}", c.levels));
+    let leaves: Vec<MKTreeNode> = (0..c.leaves).map(|i| MKTreeNode::from(format!("deep-tx-{i:02}"))).collect();
+    let proven = leaves[c.pick as usize % leaves.len()].clone();
+    let forged_leaf = MKTreeNode::from(format!("deep-tx-X{}", c.pick % 10));
+    let built = catch(|| -> Option<(MKMapProof<BlockRange>, MKMapProof<BlockRange>)> {
+        let inner = MKTree::<MKTreeStoreInMemory>::new(&leaves).ok()?.compute_proof(&[proven.clone()]).ok()?;
+        // the same innermost proof with the proven leaf's bytes replaced by a never committed leaf of the same length
+        let bytes = inner.to_bytes().ok()?;
+        let needle: &[u8] = &proven;
+        let at = bytes.windows(needle.len()).position(|w| w == needle)?;
+        let mut fb = bytes.clone();
+        fb[at..at + needle.len()].copy_from_slice(&forged_leaf);
+        let forged_inner = MKProof::from_bytes(&fb).ok()?;
+        Some((nested_map_proof(c.levels, inner)?, nested_map_proof(c.levels, forged_inner)?))
+    });
+    let (honest, forged) = match built {
+        Ok(Some(x)) => x,
+        _ => {
+            rep.discard("nested proof could not be built");
+            return rep;
+        }
+    };
+    rep.nontrivial(format!("E levels:{} leaves:{} pick:{}", c.levels, c.leaves, c.pick));
+    // both travel over the wire
+    let wire = |p: &MKMapProof<BlockRange>| catch(|| p.to_bytes().and_then(|b| MKMapProof::<BlockRange>::from_bytes(&b)));
+    let honest_rx = match wire(&honest) {
+        Ok(Ok(p)) => p,
+        other => {
+            rep.violation("E:completeness", format!("an honest map proof with {} nesting levels does not survive to_bytes/from_bytes: {:?}", c.levels, other.map(|r| r.map(|_| ()).map_err(|e| format!("{e:#}")))));
+            return rep;
+        }
+    };
+    match catch(|| (honest_rx.verify().is_ok(), honest_rx.contains(&proven).is_ok(), honest_rx.compute_root() == honest.compute_root())) {
+        Ok((true, true, true)) => {
+            rep.label("E:honest-verified");
+        }
+        other => {
+            rep.violation("E:completeness", format!("an honest map proof with {} nesting levels is not accepted (verify, contains, same root) = {other:?}", c.levels));
+            return rep;
+        }
+    }
+    let Ok(Ok(forged_rx)) = wire(&forged) else {
+        rep.label("E:forged-not-decodable");
+        return rep;
+    };
+    match catch(|| (forged_rx.verify().is_ok(), forged_rx.contains(&forged_leaf).is_ok())) {
+        Ok((true, _)) => {
+            rep.violation(
+                "E:nested-forged-leaf-accepted",
+                format!("a map proof with {} nesting levels whose innermost proven leaf was replaced by a never committed one verifies (root {}); contains(forged leaf) = {:?}", c.levels, forged_rx.compute_root().to_hex(), forged_rx.contains(&forged_leaf).is_ok()),
+            );
+        }
+        Ok((false, _)) => {
+            rep.label("E:forged-rejected");
+        }
+        Err(p) => {
+            rep.violation("E:panic", format!("verifying a forged nested map proof panics: {p}"));
+        }
+    }
+    rep
+}
+
 // ====================================================================================== (C) MKMap / MKMapProof
 
 #[derive(Clone, Debug, Serialize, Deserialize)]
@@ -1458,6 +1549,9 @@ pub fn run(args: &Args) -> i32 {
     check.enumerate("B-exhaustive", b_items.into_iter(), true, b_case);
     check.section("B-sampled", || b_random_strategy(300), t.pick(6000, 300_000), b_case);
     check.section("C-maps", c_strategy, t.pick(4000, 200_000), c_case);
+    // (E) map proofs nested far deeper than the two levels Mithril produces, up to the deepest the decoder accepts
+    let e_items: Vec<ECase> = [1u8, 2, 3, 4, 8, 16, 24, 30, 31, 32].iter().flat_map(|l| [2u8, 5, 9].into_iter().flat_map(move |n| (0..n.min(3)).map(move |pick| ECase { levels: *l, leaves: n, pick }))).collect();
+    check.enumerate("E-deep-map-proofs", e_items.into_iter(), false, e_case);
 
     // byte level (D): bincode encodings of honest proofs over fixed committed trees, mutated; the same oracle runs inside
     // the libFuzzer target `fuzz_mkproof` (coverage-guided, thorough tier), whose artifacts are judged here in-process
